@@ -19,7 +19,7 @@ from db import AnalysisBroken, VERIF
 
 IMPL = 'manifold::Manifold::Impl'
 HE = 'manifold::Halfedges'
-ALL = frozenset('TSGBK')
+ALL = frozenset('TSGBKF')
 STRUCT_MUT = {'SetStart', 'SetEnd', 'SetPair', 'Set', 'MakeInvalid', 'push_back', 'resize', 'resize_nofill',
               'clear', 'FromData'}
 
@@ -46,11 +46,101 @@ def mentions_nan(e):
     return False
 
 
+def pure_condition(cond):
+    """the condition only reads: variables, members, literals, comparisons/logic, const method calls"""
+    for x in T.walk(cond):
+        if not isinstance(x, dict):
+            continue
+        k = x.get('k')
+        if k in ('var', 'mem', 'int', 'flt', 'bool', 'this', 'cast', 'paren', 'str', 'nullptr', 'mtemp', 'bindtemp'):
+            continue
+        if k == 'bin' and x.get('op') in ('==', '!=', '<', '>', '<=', '>=', '&&', '||', '+', '-', '*', '/'):
+            continue
+        if k == 'un' and x.get('op') in ('!', '-'):
+            continue
+        if k == 'call' and x.get('mconst') and x.get('recv') is not None:
+            continue
+        return False
+    return True
+
+
+def cond_roots(cond):
+    """local variables a condition reads, or None if it reads anything that is not a plain local"""
+    roots = set()
+    for x in T.walk(cond):
+        if isinstance(x, dict) and x.get('k') == 'var':
+            if x.get('s') != 'l':
+                return None
+            roots.add(x['n'])
+        if isinstance(x, dict) and x.get('k') == 'this':
+            return None
+    return roots or None
+
+
+def may_mutate(ev, names, typeof=None):
+    """event may modify one of the named locals: assignment to it, non-const method call on it, its address or a
+    mutable reference to it taken (address converted to pointer-to-const is a read)"""
+    def rooted(n):
+        r = T.root_of(n)
+        return r is not None and r.get('k') == 'var' and r.get('n') in names
+
+    def visit(n, parent):
+        if not isinstance(n, dict):
+            return False
+        k = n.get('k')
+        if k == 'bin' and n.get('op', '').endswith('=') and n['op'] not in ('==', '!=', '<=', '>=') and rooted(n['l']):
+            return True
+        if k == 'un' and n.get('op') in ('++', '--') and rooted(n['e']):
+            return True
+        if k == 'call' and n.get('recv') is not None and not n.get('mconst') and rooted(n['recv']):
+            return True
+        if k == 'un' and n.get('op') == '&' and rooted(n['e']):
+            return True
+        if k in ('call', 'ctor') and not n.get('fk'):
+            for a in n.get('args', []):
+                a0 = T.strip_copy(a)
+                if a0.get('k') == 'var' and a0.get('n') in names:
+                    return True        # unresolved callee may take it by mutable reference
+        return False
+    if ev.get('k') == 'un' and ev.get('op') == '&':
+        return False     # a bare sub-expression element; its consumer event shows what the address is used for
+    stack = [ev]
+    while stack:
+        n = stack.pop()
+        if not isinstance(n, dict):
+            continue
+        if visit(n, None):
+            return True
+        skip = set()
+        if n.get('k') in ('ilist', 'call', 'ctor') and typeof is not None:
+            for i, a in enumerate(n.get('args', [])):
+                a0 = T.strip(a)
+                if a0.get('k') == 'un' and a0.get('op') == '&' and rooted(a0['e']) and typeof(n, i):
+                    skip.add(id(a))       # address bound to a pointer-to-const destination: a read
+        for c in T.children(n):
+            if id(c) not in skip:
+                stack.append(c)
+    return False
+
+
 class Escape:
-    def __init__(self, db, tab, bits):
+    def __init__(self, db, tab, bits, caches=False):
         self.db = db
         self.tab = tab
-        self.bits = frozenset(bits)
+        # mutable data members of Impl are caches of derived data writable through a shared const Impl: each gets a
+        # dynamic staleness bit (a lower-case letter) generated by every geometry mutation and killed by a reset
+        self.cache = {}
+        if caches:
+            cls = [c for c in db.classes.values() if c['name'] == IMPL]
+            for c in cls[:1]:
+                for i, f in enumerate([f for f in c.get('fields', []) if f.get('mutable')][:8]):
+                    # (possibly-filled bit, stale bit)
+                    self.cache[f['n']] = (chr(ord('0') + i), chr(ord('a') + i))
+        self.pbits = frozenset(p for p, _ in self.cache.values())
+        self.sbits = frozenset(q for _, q in self.cache.values())
+        self.bits = frozenset(bits) | self.pbits | self.sbits
+        self.prim_dyn = {}
+        self.dyn_if = {}        # fn key -> stale bits generated when the cache may be filled on entry
         self.prim = tab['primitives']
         self.exempt_gen = {(e['function'], e['callee']): e for e in tab['exempt_generators']}
         self.summ = {}          # fn key -> (gen, kill, req)
@@ -92,6 +182,14 @@ class Escape:
                 cur.discard(b)
         for b in eff.get('gen', []):
             cur.add(b)
+        if self.cache and (set(eff.get('gen', [])) & set('BKT')) and not eff.get('_dyn'):
+            for p, q in self.cache.values():
+                if p in cur:
+                    cur.add(q)       # geometry changed while the cache may hold a value: it is stale
+        for q in eff.get('gen_if_filled', []):
+            p = [pp for pp, qq in self.cache.values() if qq == q]
+            if p and p[0] in cur:
+                cur.add(q)
         st[obj] = frozenset(cur & self.bits)
 
     def effect_of_call(self, fn, ev):
@@ -113,13 +211,23 @@ class Escape:
                 if T.short(name) == 'CreateHalfedges' and any(
                         self.db.T(fn, p['t']).get('r') == 'manifold::MeshGLP' for p in fn['params']):
                     eff['gen'] = list(eff.get('gen', [])) + ['G']
+                if name in self.prim_dyn:
+                    dg, dk, dif = self.prim_dyn[name]
+                    eff['gen'] = list(eff.get('gen', [])) + sorted(dg)
+                    eff['kill'] = [b for b in eff.get('kill', []) if b not in self.pbits | self.sbits] + sorted(dk)
+                    eff['gen_if_filled'] = sorted(dif)
+                    eff['_dyn'] = True
                 out.append((obj, eff, T.short(name)))
             elif ev.get('fk') in self.summ:
                 g, k, r = self.summ[ev['fk']]
                 ex = self.exempt_gen.get((T.basename(fn['name'].split('::<lambda')[0]), name))
                 if ex:
                     g = [b for b in g if b not in ex['bits']]
-                out.append((obj, {'gen': sorted(g), 'kill': sorted(k), 'require_not': sorted(r)}, T.short(name)))
+                eff = {'gen': sorted(g), 'kill': sorted(k), 'require_not': sorted(r)}
+                if self.cache:
+                    eff['gen_if_filled'] = sorted(self.dyn_if.get(ev['fk'], ()))
+                    eff['_dyn'] = True
+                out.append((obj, eff, T.short(name)))
         # structural halfedge mutation -> K
         if ev.get('mcls') == HE and recv is not None and T.short(name) in STRUCT_MUT:
             r = T.strip(recv)
@@ -127,6 +235,15 @@ class Escape:
                 obj = self.obj_of(r['base'])
                 if obj:
                     out.append((obj, {'gen': ['K']}, 'Halfedges::' + T.short(name)))
+        # cache reset: X.cache_.Reset() / clear() / store(...) / X.cache_.field.store(...)
+        if recv is not None and self.cache and T.short(name) in ('Reset', 'reset', 'clear', 'store', 'operator='):
+            r = T.strip(recv)
+            while r.get('k') == 'mem' and r['n'] not in self.cache:
+                r = T.strip(r['base'])
+            if r.get('k') == 'mem' and r['n'] in self.cache and r.get('cls') == IMPL:
+                obj = self.obj_of(r['base'])
+                if obj:
+                    out.append((obj, {'kill': list(self.cache[r['n']]), '_dyn': True}, 'reset of ' + r['n']))
         # collider refresh
         if recv is not None:
             r = T.strip(recv)
@@ -204,6 +321,26 @@ class Escape:
                     pass
         return out
 
+    def _dest_const_ptr(self, fn, parent, i):
+        """argument i of an init-list / call / constructor initialises a pointer-to-const"""
+        t = None
+        if parent.get('k') == 'ilist':
+            rec = self.db.T(fn, parent).get('r')
+            cls = [c for c in self.db.classes.values() if c['name'] == rec]
+            if cls and i < len(cls[0].get('fields', [])):
+                try:
+                    t = self.db.types[cls[0]['tu']][cls[0]['fields'][i]['t']]
+                except Exception:
+                    t = None
+        elif parent.get('fk') in self.db.functions:
+            callee = self.db.functions[parent['fk']]
+            if i < len(callee['params']):
+                t = self.db.T(callee, callee['params'][i]['t'])
+        if not t:
+            return False
+        c = t.get('c') or t.get('s') or ''
+        return c.startswith('const ') and c.rstrip().endswith('*')
+
     def _nonconst_param(self, fn, ev, arg):
         """arg is bound to a non-const reference / mutable VecView parameter of a repo callee"""
         fk = ev.get('fk')
@@ -243,7 +380,7 @@ class Escape:
                             init = T.strip(v['init']) if v.get('init') is not None else None
                             if init is not None and init.get('k') == 'ctor' and (init.get('copy') or init.get('move')):
                                 src = self.obj_of(init['args'][0])
-                                st[v['n']] = st.get(src, frozenset()) if src else frozenset()
+                                st[v['n']] = (st.get(src, frozenset()) if src else frozenset()) | self.pbits
                             elif init is not None and init.get('k') == 'call':
                                 st[v['n']] = frozenset()     # value returned by a checked reduction
                             else:
@@ -255,11 +392,15 @@ class Escape:
                                     'CsgLeafNode' not in ''.join(db.T(fn, n0).get('targs') or []):
                                 a = n0.get('args', [])
                                 src = self.obj_of(a[0]) if len(a) == 1 else None
-                                st[v['n']] = st.get(src, frozenset()) if src in st else frozenset()
+                                st[v['n']] = (st.get(src, frozenset()) if src in st else frozenset()) | \
+                                    (self.pbits if len(a) == 1 else frozenset())
                 if k in ('call', 'ctor', 'ilist', 'cast', 'bin'):
                     for obj, isnan in self.position_writes(fn, ev):
                         if obj in st or obj == 'this':
-                            self.apply_effect(st, obj, {'gen': ['T'] if isnan else ['B', 'K']}, fn, ln, 'vertPos_ write')
+                            gen = ['T'] if isnan else ['B', 'K', 'F']
+                            if T.basename(fn['name'].split('::<lambda')[0]) in self.tab.get('finite_preserving_writers', {}):
+                                gen = [b for b in gen if b != 'F']
+                            self.apply_effect(st, obj, {'gen': gen}, fn, ln, 'vertPos_ write')
                 if k == 'call':
                     for obj, eff, what in self.effect_of_call(fn, ev):
                         if obj in st or obj == 'this':
@@ -293,6 +434,9 @@ class Escape:
             cond, _ = C.branch_cond(block)
             if cond is None or len(block['succ']) != 2:
                 return st
+            # correlated branches: under the current assumption this condition has a fixed value
+            if T.pstr(cond) in assume and (k == 0) != assume[T.pstr(cond)]:
+                return None
             for ctext, taken in infeasible:
                 if T.pstr(cond).strip('()') == ctext and (k == 0) == taken:
                     return None
@@ -303,7 +447,15 @@ class Escape:
                 true_edge = (k == 0) != neg
                 if true_edge and obj in st:
                     st = dict(st)
-                    st[obj] = st[obj] - {'T', 'S', 'B', 'K'}     # an empty Impl has nothing stale
+                    st[obj] = st[obj] - {'T', 'S', 'B', 'K', 'F'}     # an empty Impl has nothing stale
+                return st
+            if inner.get('k') == 'call' and T.short(inner.get('fn', '')) == 'IsFinite' and \
+                    inner.get('recv') is not None and inner.get('mcls') == IMPL:
+                obj = self.obj_of(inner['recv'])
+                true_edge = (k == 0) != neg
+                if true_edge and obj in st:
+                    st = dict(st)
+                    st[obj] = st[obj] - {'F'}     # every coordinate was tested finite
                 return st
             if inner.get('k') == 'call' and T.short(inner.get('fn', '')) == 'IsManifold' and inner.get('recv') is not None:
                 obj = self.obj_of(inner['recv'])
@@ -318,9 +470,39 @@ class Escape:
             for k2, v in b.items():
                 out[k2] = out.get(k2, frozenset()) | v
             return out
-        IN, OUT = C.forward(g, {'this': frozenset(init_this)}, transfer, join, edge)
-        ex = IN.get(g.exit, {})
-        return ex.get('this', frozenset()), esc
+        # correlated branches: a pure condition over locals that nothing in the function modifies, tested at two or
+        # more branches, decides the same way each time -> analyse once per valuation and merge
+        texts = {}
+        for b in fn['blocks']:
+            cond, _ = C.branch_cond(b)
+            if cond is not None and len(b['succ']) == 2:
+                roots = cond_roots(cond)
+                if roots and pure_condition(cond):
+                    texts.setdefault(T.pstr(cond), [set(), 0])
+                    texts[T.pstr(cond)][0] |= roots
+                    texts[T.pstr(cond)][1] += 1
+        corr = []
+        for text, (roots, cnt) in sorted(texts.items()):
+            if cnt >= 2 and not any(may_mutate(ev, roots, lambda n, i: self._dest_const_ptr(fn, n, i))
+                                    for b in fn['blocks'] for ev in b['ev']):
+                corr.append(text)
+        corr = corr[:3]
+        exit_this = frozenset()
+        seen_esc = set()
+        all_esc = []
+        reached = False
+        for mask in range(1 << len(corr)):
+            assume = {t: bool(mask >> i & 1) for i, t in enumerate(corr)}
+            del esc[:]
+            IN, OUT = C.forward(g, {'this': frozenset(init_this)}, transfer, join, edge)
+            if g.exit in IN:
+                reached = True
+                exit_this |= IN[g.exit].get('this', frozenset())
+            for x in esc:
+                if x not in seen_esc:
+                    seen_esc.add(x)
+                    all_esc.append(x)
+        return exit_this, all_esc
 
     def escape_points(self, fn, ev):
         out = []
@@ -353,6 +535,16 @@ class Escape:
             changed = False
             for f in methods:
                 if T.basename(f['name']) in self.prim:
+                    if self.cache:
+                        dyn = self.pbits | self.sbits
+                        r0 = self.analyse(f, frozenset())
+                        r1 = self.analyse(f, self.bits)
+                        r2 = self.analyse(f, self.pbits)
+                        if r0 is not None and r1 is not None and r2 is not None:
+                            d = (frozenset(r0[0] & dyn), frozenset(dyn - r1[0]), frozenset(r2[0] & self.sbits))
+                            if self.prim_dyn.get(T.basename(f['name'])) != d:
+                                self.prim_dyn[T.basename(f['name'])] = d
+                                changed = True
                     continue
                 r0 = self.analyse(f, frozenset())
                 r1 = self.analyse(f, self.bits)
@@ -371,6 +563,12 @@ class Escape:
                 if self.summ.get(f['key']) != s:
                     self.summ[f['key']] = s
                     changed = True
+                if self.cache:
+                    r2 = self.analyse(f, self.pbits)
+                    dif = frozenset(r2[0] & self.sbits) if r2 else frozenset()
+                    if self.dyn_if.get(f['key']) != dif:
+                        self.dyn_if[f['key']] = dif
+                        changed = True
             self.req_viol = []
             if not changed:
                 break
@@ -416,7 +614,10 @@ class Escape:
 
 BIT_TEXT = {'T': 'tombstones (halfedge -1 / NaN vertex) not compacted', 'S': 'stranded vertices not removed',
             'G': 'import gate (IsManifold) not passed', 'B': 'bounding box not recomputed after positions changed',
-            'K': 'collider not rebuilt after geometry changed'}
+            'K': 'collider not rebuilt after geometry changed',
+            'F': 'vertex positions written by arithmetic and not tested finite (CalculateBBox / IsFinite)'}
+for _c in 'abcdefgh':
+    BIT_TEXT[_c] = 'a mutable cache member of Impl not reset after the geometry changed'
 
 
 def report(chk, esc, res, reqv, rid, cfgname, bits):
